@@ -29,10 +29,14 @@ impl Prop for C05 {
         vec![
             Campaign { name: "expand", kind: Kind::Random { quick: 120000, thorough: 1500000 }, tape_len: 500 },
             Campaign { name: "faults", kind: Kind::Random { quick: 40000, thorough: 400000 }, tape_len: 400 },
+            Campaign { name: "actual-comments", kind: Kind::Random { quick: 3000, thorough: 30000 }, tape_len: 60 },
         ]
     }
     fn run(&self, ctx: &Ctx, campaign: &str, t: &mut Tape, st: &mut Stats) -> Result<(), Fail> {
         st.eval();
+        if campaign == "actual-comments" {
+            return actual_comments_case(t, st);
+        }
         let mut cfg = PpCfg::full();
         cfg.includes = false;
         cfg.position = false;
@@ -81,4 +85,43 @@ impl Prop for C05 {
         }
         Ok(())
     }
+}
+
+/// Campaign `actual-comments`: a two-formal macro whose body goes on behind the formals, used with actuals that carry
+/// comments (block comments anywhere, a one-line comment at the end of an actual, closed by its newline). The comment is
+/// white space: the code tokens of the output are the body with the code tokens of the actuals in place of the
+/// formals, followed by what stands behind the usage (22.5.1; a comment is never part of the text that follows it).
+fn actual_comments_case(t: &mut Tape, st: &mut Stats) -> Result<(), Fail> {
+    use serde_json::json;
+    let between = *t.pick(&[" ", " + ", " , ", "[0] "]);
+    let tail = *t.pick(&[";", " ;", " + 1;", " z", ""]);
+    let pre = *t.pick(&["", "a ", "a/**/", "(", "x = "]);
+    let post = *t.pick(&["\n", " b\n", "", " ;\n", ")\n"]);
+    let first: &[(&str, &str)] = &[("wire", "wire"), ("p /* one */", "p"), ("wire // first\n", "wire"), ("/* c */ q", "q"), ("r // r,s\n", "r"), ("u /* , */", "u")];
+    let second: &[(&str, &str)] = &[("w", "w"), ("w // second\n", "w"), ("w // second\n ", "w"), ("w /* two */", "w"), ("w /* two */ // three\n", "w"), ("v[1] // (\n", "v[1]")];
+    let (a1, c1) = first[t.below(first.len())];
+    let (a2, c2) = second[t.below(second.len())];
+    // K12: a comma or parenthesis inside a comment of an actual is read as structure
+    let k12 = a1.contains("r,s") || a1.contains("/* , */") || a2.contains("// (");
+    let sep = *t.pick(&[",", ", ", " ,"]);
+    let src = format!("`define TW(x,y) x{}y{}\n{}`TW({}{}{}){}", between, tail, pre, a1, sep, a2, post);
+    let expected = format!("`define TW(x,y) x{}y{}\n{}{}{}{}{}{}", between, tail, pre, c1, between, c2, tail, post);
+    let d = || json!({"source": src, "expected_code_tokens_of": expected});
+    if k12 {
+        st.class("comment holds a comma or parenthesis (K12: not judged)");
+        return Ok(());
+    }
+    match crate::sv::pp_plain(&src) {
+        Ok((out, _)) => {
+            if let Err(e) = crate::ppm::run::compare_tokens(&expected, out.text()) {
+                return Err(Fail::new(format!("actual with a comment: {}", e), json!({"source": src, "output": out.text(), "expected_code_tokens_of": expected})));
+            }
+        }
+        Err(e) => return Err(Fail::new(format!("actual with a comment: usage rejected: {}", crate::sv::err_kind(&e)), d())),
+    }
+    if a1.contains("//") || a2.contains("//") {
+        st.class("one-line comment ends an actual");
+    }
+    st.nontrivial(digest(src.as_bytes()), || json!({"campaign": "actual-comments", "source": src}));
+    Ok(())
 }
